@@ -93,4 +93,8 @@ def _get_saved_where_filter(zdir: PathLike, query_name: str) -> Optional[str]:
         where_filter = where_filter.replace(
             f"{{{sub_query_name}}}", sub_where_filter
         )
+    if "|" in where_words:
+        # Keep the alternatives of the saved query together once it is spliced
+        # into the referencing query (AND binds tighter than |).
+        where_filter = f"({where_filter})"
     return where_filter
